@@ -396,6 +396,15 @@ def make_likelihood(name: str, L: int, via: str, params: list):
     return lik, back
 
 
+def check_roundtrip(ctx, params, back):
+    """a hyper-parameter assigned through its public setter IS the parameter of the documented conditional: what the property reads
+    back must be the assigned value (softplus / inverse-softplus round trip: 1e-10 relative)"""
+    for b, (p, q) in enumerate(zip(params, back)):
+        for k, v in p.items():
+            if k in q:
+                ctx.check(f"setter_roundtrip.{k}", abs(q[k] - v) <= 1e-10 * max(1.0, abs(v)), f"assigned {k}={v!r}, the likelihood reports {q[k]!r}")
+
+
 def run_integrals(case, ctx: Ctx):
     name, via, kind = case["lik"], case["via"], case["dist"]
     params = case["params"]
@@ -418,6 +427,7 @@ def run_integrals(case, ctx: Ctx):
             lik, back = make_likelihood(name, L, via, params)
             with torch.no_grad():
                 got[L] = (lik.expected_log_prob(yt, dist), lik.log_marginal(yt, dist))
+    check_roundtrip(ctx, params, back)
     ref = np.zeros((2, B, n))
     for b in range(B):
         for i in range(n):
@@ -497,6 +507,7 @@ def run_conditional(case, ctx: Ctx):
     shape = ([lead] if lead else []) + ([B] if B > 1 else []) + [n]
     with ctx.observing("conditional"):
         lik, back = make_likelihood(name, 20, "setting", params)
+        check_roundtrip(ctx, params, back)
         ft = torch.tensor(f.reshape(shape))
         cond = lik(ft)
         ctype = type(cond).__name__
@@ -589,7 +600,8 @@ def bernoulli_marginal_strategy():
 # ====================================================================================================
 # Branch points of gpytorch/functions/_log_normal_cdf.py: z < -1 (rational tail approximation), z^2 < 0.04 (series around 0;
 # note 0.2 * 0.2 > 0.04 in binary64 so +-0.2 themselves are "ordinary"), everything else log(Normal.cdf).
-BRANCH_POINTS = (-1.0, -0.2, 0.2, 0.0)
+# -11.3137: below it the rational tail approximation is used (since fix F46), erfc between it and -1
+BRANCH_POINTS = (-1.0, -0.2, 0.2, 0.0, -11.3137)
 Z_MAX = 1e6  # at |z| = 1e6 one ulp of z^2/2 is 6e-5; beyond ~4e6 no binary64 result can be within 2e-3
 
 
@@ -677,6 +689,7 @@ def lncdf_strategy():
         st.floats(-Z_MAX, Z_MAX, allow_nan=False),
         st.floats(-40.0, 10.0),
         st.floats(-3.0, -1.0),
+        st.floats(-13.0, -10.0),
         st.builds(_ulps, centre, st.integers(-64, 64)),
         st.builds(lambda c, k, s, a: c + s * a * 10.0 ** (-k), centre, st.integers(1, 15), st.sampled_from([-1.0, 1.0]),
                   st.floats(1.0, 10.0)),
@@ -703,7 +716,7 @@ def lncdf_grid(tier):
     cases = []
     for k in range(10):  # -40 .. 10 in ten chunks
         cases.append(["lin", -40.0 + 5 * k, -35.0 + 5 * k, 5000 * n + 1])
-    for c in (-1.0, -0.2, 0.2, 0.0):
+    for c in (-1.0, -0.2, 0.2, 0.0, -11.3137):
         cases.append(["lin", c - 1e-3, c + 1e-3, 5000 * n + 1])
         cases.append(["lin", c - 1e-9, c + 1e-9, 2001])
         cases.append(["ulps", c, 2000])
